@@ -73,6 +73,11 @@ func RecvFilterList(c *rsyncwire.Conn) (*filterRuleList, error) {
 		if length == exclusionListEnd {
 			break
 		}
+		// rsync/exclude.c:recv_filter_list: BIGPATHBUFLEN (MAXPATHLEN + 1024)
+		const maxRuleLen = 4096 + 1024
+		if length < 0 || length >= maxRuleLen {
+			return nil, fmt.Errorf("protocol error: invalid filter rule length %d", length)
+		}
 		line := make([]byte, length)
 		if _, err := io.ReadFull(c.Reader, line); err != nil {
 			return nil, err
